@@ -220,6 +220,11 @@ def judge(cfg, out):
     if out["source_calls"] > b:
         v.append(("unbounded-production", f"{out['source_calls']} source chunks produced after the consumer stopped at k={cfg['k']} "
                                           f"(bound {b}, run length {cfg['n']})"))
+    if cfg["lazy"] and not cfg.get("pool") and out["source_calls"] > cfg["k"] + 1:
+        # behavioural form of the lazy clause (it does not trust the mailboxes' own can_drive flags): the consumer asked
+        # for k chunks, nobody else may make the source advance (measured overshoot on the unchanged code: 0)
+        v.append(("lazy-overshoot", f"lazy mode: the consumer pulled {cfg['k']} chunks and stopped, the source was advanced "
+                                    f"{out['source_calls']} times (capacity {cfg['capacity']})"))
     if not cfg["lazy"] or cfg.get("pool"):
         for name, h in out["held"].items():
             if h > out["caps"][name]:
